@@ -22,6 +22,7 @@ NO_INDEX = 0xFFFFFFFF
 
 T_HEADER, T_STRING_ID, T_TYPE_ID, T_PROTO_ID, T_FIELD_ID, T_METHOD_ID, T_CLASS_DEF = 0, 1, 2, 3, 4, 5, 6
 T_MAP_LIST, T_TYPE_LIST, T_ANN_SET_REF_LIST, T_ANN_SET = 0x1000, 0x1001, 0x1002, 0x1003
+T_CALL_SITE_ID, T_METHOD_HANDLE = 7, 8
 T_CLASS_DATA, T_CODE, T_STRING_DATA, T_DEBUG_INFO, T_ANNOTATION, T_ENCODED_ARRAY, T_ANN_DIR = 0x2000, 0x2001, 0x2002, 0x2003, 0x2004, 0x2005, 0x2006
 
 V_BYTE, V_SHORT, V_CHAR, V_INT, V_LONG, V_FLOAT, V_DOUBLE = 0x00, 0x02, 0x03, 0x04, 0x06, 0x10, 0x11
@@ -144,6 +145,10 @@ class DexModel:
         self.classes = []
         self.extra_refs = []  # Ref objects that must be in the pools although nothing references them
         self.version = b"035"
+        # DEX 038+: method_handle_item list [(handle type 0..8, Fld | Mth)] and call_site_item list [[EV, ...]] (each an encoded_array_item:
+        # [method handle, method name string, method type, extra constants...]); an invoke-custom operand indexes call_sites
+        self.method_handles = []
+        self.call_sites = []
 
     def add_class(self, *a, **k):
         c = ClassDef(*a, **k)
@@ -300,6 +305,11 @@ class Writer:
     def collect(self):
         for r in self.m.extra_refs:
             self.add_ref(r)
+        for _, r in self.m.method_handles:
+            self.add_ref(r)
+        for cs in self.m.call_sites:
+            for ev in cs:
+                self.collect_ev(ev)
         for c in self.m.classes:
             self.add_type(c.name)
             if c.super is not None:
@@ -390,6 +400,10 @@ class Writer:
                 idx = self.tidx[ev.value]
             else:
                 idx = self.ref_index(ev.value)
+            n = ev.width or min_unsigned_bytes(idx)
+            return bytes([((n - 1) << 5) | t]) + idx.to_bytes(n, "little")
+        if t == V_METHOD_HANDLE:
+            idx = ev.value          # index into the method_handles list
             n = ev.width or min_unsigned_bytes(idx)
             return bytes([((n - 1) << 5) | t]) + idx.to_bytes(n, "little")
         if t == V_ARRAY:
@@ -514,6 +528,8 @@ class Writer:
         field_ids_off = reserve(T_FIELD_ID, len(self.field_list), 8)
         method_ids_off = reserve(T_METHOD_ID, len(self.method_list), 8)
         class_defs_off = reserve(T_CLASS_DEF, len(classes), 32)
+        call_site_ids_off = reserve(T_CALL_SITE_ID, len(m.call_sites), 4)
+        method_handles_off = reserve(T_METHOD_HANDLE, len(m.method_handles), 8)
         data_off = len(buf)
 
         # ---- data: type lists
@@ -665,6 +681,13 @@ class Writer:
             sv_off[id(c)] = len(buf)
             buf += self.enc_array(vals)
             cnt += 1
+        cs_off = []
+        for cs in m.call_sites:     # call_site_items are encoded_array_items as well and live in the same section
+            if first is None:
+                first = len(buf)
+            cs_off.append(len(buf))
+            buf += self.enc_array(cs)
+            cnt += 1
         if cnt:
             sections[T_ENCODED_ARRAY] = (cnt, first)
 
@@ -751,6 +774,10 @@ class Writer:
             struct.pack_into("<HHI", buf, field_ids_off + 8 * i, self.tidx[cls], self.tidx[ty], self.sidx[name])
         for i, (cls, name, ret, params) in enumerate(self.method_list):
             struct.pack_into("<HHI", buf, method_ids_off + 8 * i, self.tidx[cls], self.pidx[(ret, params)], self.sidx[name])
+        for i, off in enumerate(cs_off):
+            struct.pack_into("<I", buf, call_site_ids_off + 4 * i, off)
+        for i, (ht, r) in enumerate(m.method_handles):
+            struct.pack_into("<HHHH", buf, method_handles_off + 8 * i, ht, 0, self.ref_index(r), 0)
         for i, c in enumerate(classes):
             struct.pack_into("<IIIIIIII", buf, class_defs_off + 32 * i,
                              self.tidx[c.name], c.access, self.tidx[c.super] if c.super is not None else NO_INDEX,
